@@ -91,62 +91,7 @@ def make_pool(vseed: int, n: int) -> list:
 # --------------------------------------------------------------------------- #
 
 
-class ForkError(Exception):
-    pass
-
-
-def in_fork(fn, timeout: float = 120.0):
-    """Run fn() in a forked child of THIS (pristine) interpreter; returns its JSON-able result."""
-    r, w = os.pipe()
-    pid = os.fork()
-    if pid == 0:
-        code = 0
-        try:
-            os.close(r)
-            try:
-                out = {"ok": fn()}
-            except BaseException as e:  # noqa: BLE001
-                import traceback
-
-                out = {"err": f"{type(e).__name__}: {e}", "tb": traceback.format_exc()[-2000:]}
-            data = json.dumps(out).encode()
-            view = memoryview(data)
-            while view:
-                n = os.write(w, view)
-                view = view[n:]
-            os.close(w)
-        except BaseException:  # noqa: BLE001
-            code = 3
-        finally:
-            os._exit(code)
-    os.close(w)
-    chunks = []
-    deadline = time.time() + timeout
-    try:
-        while True:
-            left = deadline - time.time()
-            if left <= 0:
-                os.kill(pid, signal.SIGKILL)
-                raise ForkError("forked child timed out")
-            rl, _, _ = select.select([r], [], [], min(left, 5.0))
-            if not rl:
-                continue
-            b = os.read(r, 1 << 16)
-            if not b:
-                break
-            chunks.append(b)
-    finally:
-        os.close(r)
-        try:
-            os.waitpid(pid, 0)
-        except ChildProcessError:
-            pass
-    if not chunks:
-        raise ForkError("forked child produced no output")
-    out = json.loads(b"".join(chunks))
-    if "err" in out:
-        raise ForkError(out["err"] + "\n" + out.get("tb", ""))
-    return out["ok"]
+from .common import ForkError, in_fork  # noqa: E402
 
 
 _golden: dict = {}
@@ -390,6 +335,10 @@ class LineSched:
         self.focus = focus
         self.focus_hits = 0
         # dynamic shared-object detection: objects whose methods have been entered by more than one caller thread
+        self.tls = threading.local()
+        self.blocked: set = set()  # ids of caller threads stuck in a REAL lock held by a parked thread (see _recover)
+        self.prev = None
+        self.lock_recoveries = 0
         self.obj_threads: dict = {}
         self.obj_jobs: dict = {}
         self.job_no = 0
@@ -461,6 +410,7 @@ class LineSched:
 
         def line(frame, event, arg):
             if event == "line":
+                sched._park_if_not_mine()
                 sched.line_events += 1
                 p = sched.permille
                 ln = frame.f_lineno
@@ -478,8 +428,17 @@ class LineSched:
 
         return line
 
+    def _park_if_not_mine(self):
+        me = getattr(self.tls, "t", None)
+        if me is not None and self.cur is not me and not self.warming:
+            # this thread was blocked inside a real lock when the baton moved on; it is runnable again now: wait for its turn
+            self.blocked.discard(me["id"])
+            me["sem"].acquire()
+            self.cur = me
+
     def _line(self, frame, event, arg):
         if event == "line":
+            self._park_if_not_mine()
             self.line_events += 1
             p = self.permille
             if self.focus is not None and (frame.f_code.co_filename, frame.f_lineno) in self.focus:
@@ -491,17 +450,32 @@ class LineSched:
 
     def _switch(self):
         me = self.cur
-        others = [t for t in self.threads if not t["done"] and t is not me]
+        others = [t for t in self.threads if not t["done"] and t is not me and t["id"] not in self.blocked]
         if not others:
             return
         nxt = others[self.tape.choose(len(others), "thr.to")]
         self.switches += 1
+        self.prev = me
         self.cur = nxt
         nxt["sem"].release()
         if not me["sem"].acquire(timeout=120):
             self.errors.append("thread parked too long")
             return
         self.cur = me
+
+    def _recover(self):
+        stuck = self.cur
+        if stuck is None or stuck.get("done"):
+            return
+        cands = [t for t in self.threads if not t["done"] and t is not stuck and t["id"] not in self.blocked]
+        if not cands:
+            return
+        nxt = self.prev if (self.prev in cands) else cands[0]
+        self.blocked.add(stuck["id"])
+        self.lock_recoveries += 1
+        self.prev = stuck
+        self.cur = nxt
+        nxt["sem"].release()
 
     def warmup(self, jobs: list):
         """Serve the calls once, sequentially, under the tracer: objects that survive a call (caches, shared instances) become
@@ -521,6 +495,7 @@ class LineSched:
             self.warming = False
 
     def _body(self, t):
+        self.tls.t = t
         if not t["sem"].acquire(timeout=120):
             return
         self.cur = t
@@ -535,7 +510,7 @@ class LineSched:
         finally:
             sys.settrace(None)
             t["done"] = True
-            rest = [x for x in self.threads if not x["done"]]
+            rest = [x for x in self.threads if not x["done"] and x["id"] not in self.blocked] or [x for x in self.threads if not x["done"]]
             if rest:
                 nxt = rest[self.tape.choose(len(rest), "thr.next")]
                 self.cur = nxt
@@ -552,8 +527,21 @@ class LineSched:
             t["thread"].start()
         first = self.threads[self.tape.choose(len(self.threads), "thr.first")]
         first["sem"].release()
-        if not self.main.acquire(timeout=600):
-            raise ForkError("thread schedule did not finish")
+        # the baton holder may block inside a REAL lock (threading.Lock in the code under test) that a parked thread holds:
+        # nothing moves then.  Detect the stall and give the baton back to the thread that handed it over last (the holder);
+        # the stuck thread parks itself as soon as it returns to Python (see _park_if_not_mine).
+        deadline = time.time() + 600
+        last, still = -1, 0
+        while not self.main.acquire(timeout=0.05):
+            if time.time() > deadline:
+                raise ForkError("thread schedule did not finish")
+            if self.line_events == last:
+                still += 1
+            else:
+                last, still = self.line_events, 0
+            if still >= 3:
+                still = 0
+                self._recover()
         for t in self.threads:
             t["thread"].join(timeout=60)
         if self.errors:
@@ -738,7 +726,7 @@ def run_variation_child(var: dict, calls_by_id: dict, tape_values=None) -> dict:
             sched.warmup([mk(dict(c, id=800000 + c["id"]), False) for c, p in pj])
         sched.run([l for l in lists if l])
         meta.update(line_events=sched.line_events, switches=sched.switches, focus_hits=sched.focus_hits,
-                    shared_obj_hits=sched.shared_obj_hits)
+                    shared_obj_hits=sched.shared_obj_hits, lock_recoveries=sched.lock_recoveries)
     meta["clock_reads"] = clock.reads
     meta["tape_len"] = len(tape.values)
     out["_meta"] = meta
@@ -812,7 +800,7 @@ def run_var_case(case: dict, stats: Stats | None = None) -> dict:
             stats.inc("nontrivial_evaluations", len(var["probes"]))
         stats.distinct("var_shapes", repr((tuple(d), len(var["history"]), var.get("threads"), var.get("preempt_permille"))))
         stats.inc("history_calls_served", len(var["history"]) + (len(NASTY) if var.get("nasty_history") else 0))
-        for k in ("loop_steps", "loop_choices", "line_events", "switches", "clock_reads", "focus_hits", "shared_obj_hits"):
+        for k in ("loop_steps", "loop_choices", "line_events", "switches", "clock_reads", "focus_hits", "shared_obj_hits", "lock_recoveries"):
             if k in meta:
                 stats.inc(k, int(meta[k]))
         if "virtual_seconds" in meta:
@@ -1065,7 +1053,8 @@ def main(tier: str, seed: int, args) -> int:
             "asyncio_loop_steps": c.get("loop_steps", 0), "asyncio_schedule_choices": c.get("loop_choices", 0),
             "virtual_seconds_advanced": c.get("virtual_seconds", 0),
             "thread_line_events": c.get("line_events", 0), "thread_preemptions": c.get("switches", 0),
-            "thread_shared_state_line_hits": c.get("focus_hits", 0), "thread_writes_through_shared_objects": c.get("shared_obj_hits", 0), "shared_state_lines_in_package": len(compute_shared_lines()),
+            "thread_shared_state_line_hits": c.get("focus_hits", 0), "thread_writes_through_shared_objects": c.get("shared_obj_hits", 0),
+            "thread_real_lock_stalls_recovered": c.get("lock_recoveries", 0), "shared_state_lines_in_package": len(compute_shared_lines()),
             "simulated_clock_reads": c.get("clock_reads", 0),
             "apis": dict(sorted(stats.groups.get("apis", {}).items())),
             "fault_counts_fired": {"note": "no fault is part of this property; the injected 'faults' are configuration/schedule/clock variations",
